@@ -172,9 +172,13 @@ def assign(mod, base_seed, tier, n_workers):
     """Deterministic assignment of run indices to workers, grouped by compiled program."""
     n_runs = mod.TIERS[tier]["runs"]
     groups = {}
+    fast = getattr(mod, "group_of_index", None)  # cheap path: group without building the whole cfg
     for i in range(n_runs):
-        cfg = mod.gen_cfg(derive_seed(base_seed, mod.ID, i), i, tier)
-        groups.setdefault(mod.group_of(cfg), []).append(i)
+        if fast is not None:
+            g = fast(derive_seed(base_seed, mod.ID, i), i, tier)
+        else:
+            g = mod.group_of(mod.gen_cfg(derive_seed(base_seed, mod.ID, i), i, tier))
+        groups.setdefault(g, []).append(i)
     per = [[] for _ in range(n_workers)]
     load = [0] * n_workers
     # big groups first, each to the least loaded worker; groups larger than a fair share are split
